@@ -86,12 +86,31 @@ func (c *Ctx) stringHelperClass(fn *types.Func) (class, why string) {
 	}
 	x := c.NewSX()
 	paths := x.Run(fd)
+	for _, p := range paths {
+		if p.Why != "" {
+			return "", "helper outside the path vocabulary: " + p.Why
+		}
+	}
+	paths = c.view(fd).flagNorm(paths) // a `plain` flag with break reads as the early exit it stands for
 	// Every feasible path must be an accepted shape of one class. A path is infeasible when one of its conditions contradicts
 	// what is known of the encoder's output (json.Marshal/Encode of a string never fail; Encoder.Encode ends its output with "\n").
 	n := 0
 	for _, p := range paths {
 		if p.Why != "" || p.End != "return" || len(p.Vals) != 1 {
 			return "", "helper is not a straight-line encoder (a data-dependent shortcut emits text the encoder never saw)"
+		}
+		if c.verbatimQuoted(p.Vals[0], par) {
+			// a fast path that emits `"` + input + `"` without encoding: right exactly when the scan that led here confined every byte
+			// of the input to what the JSON encoder emits as it is
+			if w := c.verbatimGuard(p, par, jsonSafeByte, "emits the input verbatim, which is right only for bytes JSON lets stand unescaped,"); w != "" {
+				return "", w
+			}
+			if class != "" && class != "json" {
+				return "", "paths of the helper use different encoders"
+			}
+			class = "json"
+			n++
+			continue
 		}
 		cls, w, feasible := c.encoderPath(p, par)
 		if !feasible {
@@ -110,6 +129,232 @@ func (c *Ctx) stringHelperClass(fn *types.Func) (class, why string) {
 		return "", "helper has no feasible path"
 	}
 	return class, ""
+}
+
+// scanOnly: the rounds of the loop that go on (or leave by break) do nothing but decide.
+func scanOnly(l *LoopRec) bool {
+	for _, ip := range l.Iter {
+		if ip.Why != "" {
+			return false
+		}
+		if ip.End == "return" || ip.End == "panic" {
+			continue
+		}
+		for _, st := range ip.Steps {
+			if st.Kind != "cond" {
+				return false
+			}
+		}
+	}
+	return true
+}
+
+// jsonSafeByte: what encoding/json emits as it is inside a string (its safeSet) and what a JSON decoder reads back as the very byte:
+// ASCII from 0x20 up, other than the quote and the backslash.
+func jsonSafeByte(b int) bool { return b >= 0x20 && b <= 0x7f && b != '"' && b != '\\' }
+
+// verbatimQuoted: t is `"` + input + `"`.
+func (c *Ctx) verbatimQuoted(t Term, par types.Object) bool {
+	var parts []Term
+	var flat func(t Term)
+	flat = func(t Term) {
+		if b, ok := t.(TBin); ok && b.Op == token.ADD {
+			flat(b.X)
+			flat(b.Y)
+			return
+		}
+		parts = append(parts, t)
+	}
+	flat(c.normByteStrings(t))
+	if len(parts) != 3 || !isParamTerm(parts[1], par) {
+		return false
+	}
+	a, oka := isConstStringTerm(parts[0])
+	b, okb := isConstStringTerm(parts[2])
+	return oka && okb && a == `"` && b == `"`
+}
+
+// inputOnly: the term is computed from the helper's input alone (its bytes, its length, loop positions, constants).
+func inputOnly(t Term, par types.Object) bool {
+	ok := true
+	collectSubterms(t, func(u Term) {
+		switch x := u.(type) {
+		case TConst, TLoop, TBin, TUn, TIndex, TConv:
+		case TVar:
+			if x.Obj != par && !isLocalVar(x.Obj) {
+				ok = false
+			}
+		case TBuiltin:
+			if x.Name != "len" {
+				ok = false
+			}
+		default:
+			ok = false
+		}
+	})
+	return ok
+}
+
+// exhaustedFlag: the condition holds after the loop exactly when the loop was exhausted: it tests a boolean carried by the loop for its
+// initial value, every round that goes on leaves the flag alone and every round that breaks off sets it to the other value.
+func exhaustedFlag(l *LoopRec, cd Cond) bool {
+	t, want := cd.T, cd.Truth
+	for {
+		u, ok := t.(TUn)
+		if !ok || u.Op != token.NOT {
+			break
+		}
+		t, want = u.X, !want
+	}
+	lv, ok := t.(TLoop)
+	if !ok || lv.ID != l.ID {
+		return false
+	}
+	b0, ok := constBoolOf(simplify(l.Init[lv.Obj]))
+	if !ok || b0 != want {
+		return false
+	}
+	for _, ip := range l.Iter {
+		v, has := ip.Env[lv.Obj]
+		switch ip.End {
+		case "fall", "continue":
+			if has && !sameTerm(v, lv) {
+				if b, isC := constBoolOf(simplify(v)); !isC || b != b0 {
+					return false
+				}
+			}
+		case "break":
+			b, isC := constBoolOf(simplify(v))
+			if !has || !isC || b == b0 {
+				return false
+			}
+		}
+	}
+	return true
+}
+
+// verbatimGuard: path p returns the input verbatim; it must be the path on which ONE complete scan of the input's bytes (`for i := 0;
+// i < len(s); i++`, every round going on) has found every byte in the safe set — printable ASCII other than `"` and `\`, which is
+// what encoding/json emits unchanged (trusted table). Decided for every byte value 0..255: a byte that lets a round go on must be
+// safe. Returns "" when the guard is good.
+func (c *Ctx) verbatimGuard(p *Path, par types.Object, safeByte func(b int) bool, what string) string {
+	li := -1
+	for k, st := range p.Steps {
+		switch st.Kind {
+		case "loop":
+			if li >= 0 {
+				return "a verbatim fast path behind more than one loop"
+			}
+			li = k
+		case "cond":
+			if li >= 0 {
+				// `if plain { return verbatim }` after `plain := true; for … { if bad { plain = false; break } }`: the flag still has its
+				// initial value exactly when no round broke off, i.e. the scan ran to the end
+				if !exhaustedFlag(p.Steps[li].Loop, st.Cond) {
+					return "a verbatim fast path decided after its scan by something that is not the scan (a data-dependent shortcut emits text the encoder never saw)"
+				}
+				continue
+			}
+			if !inputOnly(st.Cond.T, par) {
+				return "a verbatim fast path behind a decision that is not about the input"
+			}
+		default:
+			return "a verbatim fast path with effects"
+		}
+	}
+	if li < 0 {
+		// no scan at all: only the empty input may take it
+		for _, cd := range p.Conds() {
+			e := &strEnv{hook: func(t Term) (sval, bool) {
+				if isParamTerm(t, par) {
+					return sval{K: 's', S: "a"}, true
+				}
+				return sval{}, false
+			}}
+			if v, ok := e.val(cd.T); ok && v.K == 'b' && v.B != cd.Truth {
+				return "" // a one-byte input does not get here: the path is the empty-input path
+			}
+		}
+		return "helper is not a straight-line encoder (a data-dependent shortcut emits text the encoder never saw)"
+	}
+	if inLoopExitPrefix(p, li) >= 0 {
+		return "a verbatim fast path that leaves its scan early"
+	}
+	l := p.Steps[li].Loop
+	if l.For == nil || l.CondT == nil {
+		return "the scan before a verbatim fast path is not a counted loop over the input's bytes"
+	}
+	hd, ok := simplify(l.CondT).(TBin)
+	var ctr TLoop
+	good := false
+	if ok {
+		switch hd.Op {
+		case token.LSS:
+			c0, isL := hd.X.(TLoop)
+			ln, isLen := hd.Y.(TBuiltin)
+			ctr, good = c0, isL && isLen && ln.Name == "len" && len(ln.Args) == 1 && isParamTerm(ln.Args[0], par)
+		case token.GTR:
+			c0, isL := hd.Y.(TLoop)
+			ln, isLen := hd.X.(TBuiltin)
+			ctr, good = c0, isL && isLen && ln.Name == "len" && len(ln.Args) == 1 && isParamTerm(ln.Args[0], par)
+		}
+	}
+	if !good || ctr.ID != l.ID {
+		return "the scan before a verbatim fast path does not run to the end of the input"
+	}
+	if k, isK := constInt(l.Init[ctr.Obj]); !isK || k != 0 {
+		return "the scan before a verbatim fast path does not start at the first byte"
+	}
+	step := 0
+	if l.Post != nil {
+		step = c.counterStep(l.Post, ctr.Obj)
+	} else if d, has := l.PostStep[ctr.Obj]; has {
+		step = int(d)
+	}
+	if step != 1 {
+		return "the scan before a verbatim fast path does not visit every byte"
+	}
+	cur := TIndex{X: TVar{par}, I: ctr}
+	for b := 0; b < 256; b++ {
+		hook := func(t Term) (sval, bool) {
+			if ix, isIx := t.(TIndex); isIx && isParamTerm(ix.X, par) && sameTerm(ix.I, ctr) {
+				return sval{K: 'i', I: int64(b)}, true
+			}
+			return sval{}, false
+		}
+		_ = cur
+		goesOn := false
+		for _, ip := range l.Iter {
+			if ip.End != "fall" && ip.End != "continue" {
+				continue
+			}
+			if tv, has := ip.Env[ctr.Obj]; has && !sameTerm(tv, ctr) {
+				return "the scan before a verbatim fast path moves its position inside a round"
+			}
+			feasible := true
+			for _, st := range ip.Steps {
+				if st.Kind != "cond" {
+					return "the scan before a verbatim fast path has effects"
+				}
+				e := &strEnv{hook: hook}
+				v, ok := e.val(st.Cond.T)
+				if !ok || v.K != 'b' {
+					return "the scan before a verbatim fast path decides on something other than the current byte: " + c.termStr(st.Cond.T)
+				}
+				if v.B != st.Cond.Truth {
+					feasible = false
+					break
+				}
+			}
+			if feasible {
+				goesOn = true
+			}
+		}
+		if goesOn && !safeByte(b) {
+			return "a fast path " + what + " although the scan lets byte 0x" + strconv.FormatInt(int64(b), 16) + " pass"
+		}
+	}
+	return ""
 }
 
 // encBufString: t is <buffer>.String() (or string(<buffer>.Bytes())) of the buffer the helper's encoder writes.
@@ -248,6 +493,9 @@ func (c *Ctx) encoderPath(p *Path, par types.Object) (class, why string, feasibl
 			if s.Kind == "store" {
 				continue // zero-initialisation of the local buffer
 			}
+			if s.Kind == "loop" && s.Loop != nil && scanOnly(s.Loop) {
+				continue // a scan of the input that decided for the encoder: no effect (a round that leaves carries its steps itself)
+			}
 			effWhy = "unexpected effect in the helper"
 			break
 		}
@@ -309,6 +557,9 @@ func (c *Ctx) encoderPath(p *Path, par types.Object) (class, why string, feasibl
 		}
 	}
 	for _, cd := range p.Conds() {
+		if inputOnly(cd.T, par) {
+			continue // a decision about the input (a byte that needs escaping was found): whatever it is, this path encodes
+		}
 		v := U
 		if effWhy == "" {
 			v = encCond(c, cd.T, bufT, par)
@@ -510,6 +761,10 @@ func (e *emitter) tokens(t Term) []sTok {
 		if ts, ok := e.strs[key(TVar{x.Obj})]; ok {
 			return append([]sTok(nil), ts...)
 		}
+		// a loop-carried byte or rune (`separator := byte('{')` … `separator = ','`): the character it holds in this round
+		if v, ok := e.ints[key(TVar{x.Obj})]; ok && isCharType(x.Obj.Type()) && v >= 0 && v < 0x80 {
+			return []sTok{{Kind: "C", Text: string(rune(v))}}
+		}
 	case TVar:
 		if ts, ok := e.strs[key(x)]; ok {
 			return append([]sTok(nil), ts...)
@@ -567,6 +822,17 @@ func (e *emitter) tokens(t Term) []sTok {
 			return out
 		case x.Recv != nil && len(x.Args) == 0 && x.Fun.Name() == e.serName && e.valVar != nil && isParamTerm(x.Recv, e.valVar):
 			return []sTok{{Kind: "CHILD", At: e.iter}}
+		case x.Recv != nil && len(x.Args) == 0 && x.Fun.Name() == e.serName:
+			// spine[k].serialize() with a foldable k: that element (the first one written before the loop over the rest)
+			if ix, ok := x.Recv.(TIndex); ok && e.v.isRecvSpine(ix.X) && e.v.ct != nil && e.v.ct.IsList {
+				te := &termEnv{hook: e.hook}
+				if i, okI := te.int(ix.I); okI {
+					if i < 0 || i >= e.n {
+						return e.bad("element " + itoa(int(i)) + " of a spine of " + itoa(int(e.n)) + " is serialised: index out of range")
+					}
+					return []sTok{{Kind: "CHILD", At: i}}
+				}
+			}
 		case x.Recv == nil && len(x.Args) == 1 && e.keyVar != nil && isParamTerm(x.Args[0], e.keyVar):
 			cls, why := c.stringHelperClass(x.Fun)
 			switch cls {
@@ -713,6 +979,46 @@ func (e *emitter) steps(steps []Step) bool {
 					continue
 				}
 			}
+			if ix, isIx := st.LHS.(TIndex); isIx {
+				// buf[len(buf)-1] = ']': the last byte of the text accumulated in a []byte is replaced (the separator written after
+				// the last element becomes the closing bracket)
+				var k string
+				switch b := ix.X.(type) {
+				case TLoop:
+					k = key(TVar{b.Obj})
+				case TVar:
+					k = key(b)
+				}
+				if toks, tracked := e.strs[k]; tracked && k != "" {
+					last := false
+					if sub, ok := ix.I.(TBin); ok && sub.Op == token.SUB {
+						if one, isK := constInt(sub.Y); isK && one == 1 {
+							if bl, ok := sub.X.(TBuiltin); ok && bl.Name == "len" && len(bl.Args) == 1 && sameTerm(eraseEpochs(bl.Args[0]), eraseEpochs(ix.X)) {
+								last = true
+							}
+						}
+					}
+					ch, isCh := constInt(st.RHS)
+					if !last || !isCh || ch < 0 || ch > 127 {
+						e.why = "store into the text buffer other than a constant byte over its last byte: " + e.c.termStr(st.LHS)
+						return false
+					}
+					toks = mergeToks(toks)
+					if len(toks) == 0 {
+						e.why = "the last byte of an empty buffer is overwritten (index out of range)"
+						return false
+					}
+					lt := toks[len(toks)-1]
+					if lt.Kind != "C" || lt.Text == "" {
+						e.why = "the last byte of a child's or key's text is overwritten"
+						return false
+					}
+					lt.Text = lt.Text[:len(lt.Text)-1] + string(rune(ch))
+					toks = append(append([]sTok(nil), toks[:len(toks)-1]...), lt)
+					e.strs[k] = toks
+					continue
+				}
+			}
 			if _, isVar := st.LHS.(TVar); !isVar {
 				e.why = "store " + e.c.termStr(st.LHS)
 				return false
@@ -759,13 +1065,57 @@ func (e *emitter) loop(l *LoopRec) bool {
 	counted := false
 	var listItems [][]sTok
 	listRange := false
-	if l.Range != nil && !e.v.isRecvSpine(l.Over) {
+	// a range over a part of the spine (`for _, v := range items[1:]` after the first element was written by hand): the elements
+	// lo..hi-1, visited in order
+	subRange, base, subLen := false, int64(0), int64(0)
+	if sl, ok := l.Over.(TSlice); ok && l.Range != nil && sl.Max == nil && e.v.isRecvSpine(sl.X) {
+		lo, hi := int64(0), e.n
+		okB := true
+		if sl.Lo != nil {
+			te := &termEnv{hook: e.hook}
+			lo, okB = te.int(sl.Lo)
+		}
+		if sl.Hi != nil && okB {
+			te := &termEnv{hook: e.hook}
+			hi, okB = te.int(sl.Hi)
+		}
+		if !okB {
+			e.why = "a range over a part of the spine whose bounds cannot be folded"
+			return false
+		}
+		if lo < 0 || hi > e.n || lo > hi {
+			e.why = "a range over a part of the spine that is out of range for " + itoa(int(e.n)) + " elements (the serialiser would panic)"
+			return false
+		}
+		subRange, base, subLen = true, lo, hi-lo
+	}
+	if subRange {
+	} else if l.Range != nil && !e.v.isRecvSpine(l.Over) {
 		// a range over the items accumulated so far (for _, part := range parts): visited item by item
 		if items, ok := e.listOf(l.Over); ok {
 			listRange, listItems = true, append([][]sTok(nil), items...)
+		} else if sl, isSl := l.Over.(TSlice); isSl && sl.Max == nil {
+			// … or over a part of them (parts[1:])
+			if items, ok := e.listOf(sl.X); ok {
+				lo, hi := int64(0), int64(len(items))
+				okB := true
+				if sl.Lo != nil {
+					te := &termEnv{hook: e.hook}
+					lo, okB = te.int(sl.Lo)
+				}
+				if sl.Hi != nil && okB {
+					te := &termEnv{hook: e.hook}
+					hi, okB = te.int(sl.Hi)
+				}
+				if !okB || lo < 0 || hi > int64(len(items)) || lo > hi {
+					e.why = "a range over a part of the accumulated items whose bounds cannot be folded or are out of range"
+					return false
+				}
+				listRange, listItems = true, append([][]sTok(nil), items[lo:hi]...)
+			}
 		}
 	}
-	if listRange {
+	if listRange || subRange {
 	} else if l.Range == nil || !e.v.isRecvSpine(l.Over) {
 		// a counted loop over already accumulated items (for i := 0; i < len(parts); i++): unrolled while its condition holds
 		if l.For == nil || l.CondT == nil {
@@ -813,6 +1163,9 @@ func (e *emitter) loop(l *LoopRec) bool {
 	if listRange {
 		limit = int64(len(listItems))
 	}
+	if subRange {
+		limit = subLen
+	}
 	for t := int64(0); counted || t < limit; t++ {
 		if listRange {
 			e.iter = -1
@@ -835,7 +1188,7 @@ func (e *emitter) loop(l *LoopRec) bool {
 			}
 			e.iter = -1
 		} else {
-			e.iter = t
+			e.iter = base + t
 		}
 		if l.Key != nil && isIntType(l.Key.Type()) && !counted {
 			e.ints[key(TVar{l.Key})] = t
@@ -1510,4 +1863,10 @@ func init() {
 			"repo-local helpers are analysed down to an accepted straight-line shape); float text is tracked in a small abstract domain (plain/with '.', exponent/with '.'). The encoders' own conformance, NaN/Inf and invalid UTF-8 in stored strings are outside.",
 		Rules: c02Rules(),
 	})
+}
+
+// isCharType: byte, rune (or another integer type a character constant was stored in).
+func isCharType(t types.Type) bool {
+	b, ok := t.Underlying().(*types.Basic)
+	return ok && (b.Kind() == types.Uint8 || b.Kind() == types.Int32)
 }
